@@ -72,7 +72,7 @@ func init() {
 		}()
 		select {
 		case <-done:
-		case <-time.After(20 * time.Second):
+		case <-time.After(20 * time.Second * loadScale()):
 			return "hang"
 		}
 		last, herr := e.Halt(ctx)
@@ -118,7 +118,7 @@ func init() {
 		}()
 		select {
 		case <-g.parked:
-		case <-time.After(2 * time.Second):
+		case <-time.After(2 * time.Second * loadScale()):
 			e.Halt(ctx)
 			return "halt-complete=true" // fewer than n evaluations in the whole search: nothing to test
 		}
@@ -134,7 +134,7 @@ func init() {
 		case pv := <-res:
 			ok := pv.Depth >= 1 && int32(pv.Depth) >= reported && (len(pv.Moves) > 0 || !legal)
 			return fmt.Sprintf("halt-complete=%v", ok)
-		case <-time.After(10 * time.Second):
+		case <-time.After(10 * time.Second * loadScale()):
 			return "hang"
 		}
 	})
@@ -321,7 +321,7 @@ func init() {
 		}()
 		select {
 		case <-done:
-		case <-time.After(60 * time.Second):
+		case <-time.After(60 * time.Second * loadScale()):
 			e.Halt(ctx)
 			return "MISMATCH analysis with a depth limit did not end"
 		}
@@ -401,7 +401,7 @@ func init() {
 			want = first + 2 // no limit at all: it must still be running two depths beyond the first analysis' limit
 		}
 		var lastPV search.PV
-		timeout := time.After(60 * time.Second)
+		timeout := time.After(60 * time.Second * loadScale())
 		for {
 			select {
 			case pv, ok := <-out:
@@ -746,7 +746,13 @@ func init() {
 		for i := 0; i < m; i++ {
 			size := []int{64, 1024, 1 << 16}[i%3]
 			nh := []int{2, 4, 16, 200}[i%4]
-			line := fmt.Sprintf("published ttstress %d %d %d %d %d %d", size, 3+r.Intn(4), 2+r.Intn(3), nh, 40000, r.Int63n(1<<30))
+			// few hashes = heavy contention on the same slots and on the recorder's lock: fewer rounds there keep the op
+			// to a second or two on an idle machine (it took 16 s at load 17 with 40000 rounds and 2 hashes)
+			rounds := 40000
+			if nh <= 4 {
+				rounds = 12000
+			}
+			line := fmt.Sprintf("published ttstress %d %d %d %d %d %d", size, 3+r.Intn(4), 2+r.Intn(3), nh, rounds, r.Int63n(1<<30))
 			o.do(line)
 			o.Count("tt:stress")
 			o.Nontrivial(line)
@@ -950,7 +956,7 @@ func init() {
 		case <-g.parked:
 			parked = true
 		case <-drained:
-		case <-time.After(5 * time.Second):
+		case <-time.After(5 * time.Second * loadScale()):
 			return "hang"
 		}
 		if mid := e.Position() + " " + obsBoard(z, e.Board()); mid != before {
@@ -974,7 +980,7 @@ func init() {
 		}
 		select {
 		case <-drained:
-		case <-time.After(10 * time.Second):
+		case <-time.After(10 * time.Second * loadScale()):
 			return "hang"
 		}
 		time.Sleep(2 * time.Millisecond)
